@@ -362,6 +362,11 @@ void FN(gm_ProcessEvent)(uint64_t me, double now, unsigned type, const void *con
 		rep->init_rid = (int16_t)rsv_cur_rid();
 		rep->init_rank = (int16_t)rsv_get_rank();
 #endif
+		if(g->stateless[me]) {
+			/* a router: no state of its own; one heartbeat keeps it going */
+			A(ScheduleNewEvent)(me, g->time_mode == 1 ? 1.0 : 0.25 + A(Random)(), GM_HB_TYPE, NULL, 0);
+			return;
+		}
 		s = A(rs_malloc)(sizeof *s);
 		memset(s, 0, sizeof *s);
 		s->prng = fold(g->seed, me * 2654435761u + 1);
@@ -407,9 +412,26 @@ void FN(gm_ProcessEvent)(uint64_t me, double now, unsigned type, const void *con
 		rep->digest = fold(FN(gm_state_digest)(s), A(RandomU64)());
 		rep->handled = s ? s->handled : 0;
 		rep->goal = s ? s->goal : 0;
-		rep->frozen = s ? s->frozen : 0;
-		rep->pred = s ? s->handled >= s->goal : 0;
+		rep->frozen = s ? s->frozen : g->stateless[me];
+		rep->pred = s ? s->handled >= s->goal : g->stateless[me];
 		rep->frozen_at = s ? s->frozen_at : -2.0;
+		return;
+	}
+	if(!s) {
+		/* router: everything it does is a function of its library generator, the only thing a rollback has to put back */
+		if(!g->stateless[me] || now >= GM_ROUTER_HORIZON)
+			return;
+		uint64_t r = A(RandomU64)();
+		OUT.lib_draws++;
+		if(type == GM_HB_TYPE)
+			A(ScheduleNewEvent)(me, g->time_mode == 1 ? now + 1.0 : now + 0.5 + A(Random)(), GM_HB_TYPE, NULL, 0);
+		if((r & 255) < g->send_prob) {
+			unsigned char pl8[8];
+			memcpy(pl8, &r, 8);
+			unsigned psz = g->payload_mode ? (unsigned)((r >> 40) % 9) : 0;
+			double t = g->time_mode == 1 ? floor(now) + 1.0 + (double)((r >> 54) & 1) : now + 0.05 + A(Random)() * 1.5;
+			A(ScheduleNewEvent)((r >> 8) % g->n_lps, t, (unsigned)((r >> 20) & 7) | (unsigned)(((r >> 23) & 7) << 5), psz ? pl8 : NULL, psz);
+		}
 		return;
 	}
 	if(s->frozen)
@@ -484,7 +506,8 @@ void FN(gm_ProcessEvent)(uint64_t me, double now, unsigned type, const void *con
 
 bool FN(gm_CanEnd)(uint64_t me, const void *snapshot)
 {
-	(void)me;
 	const struct gm_state *s = snapshot;
-	return s && s->handled >= s->goal; /* monotone; with post_goal == 0 it coincides with the freeze */
+	if(!s)
+		return gm_spec.stateless[me] != 0; /* routers have no state: their predicate holds from the start */
+	return s->handled >= s->goal; /* monotone; with post_goal == 0 it coincides with the freeze */
 }
